@@ -144,6 +144,33 @@ def pbn_case(boards: List[dict], lay: dict, c: Counter, tag: str):
     c.see('cls', ('pbn', tag, len(boards), lay.get('extras', 'none'), lay.get('header', 'none')))
 
 
+def reuse_case(first: List[dict], lay1: dict, second: List[dict], lay2: dict, c: Counter):
+    """History: ONE PbnParser object reads file 1 and then file 2; file 2 must be read as the boards of file 2."""
+    def text_of(boards, lay):
+        games = [RP.game_lines(b) for b in boards]
+        return RP.render_file(games, header=lay.get('header', 'none'), eol=lay.get('eol', '\n'), before=lay.get('before', 0), between=lay.get('between', 1),
+                              after=lay.get('after', 0), final_eol=lay.get('final_eol', True))
+    t1, t2 = text_of(first, lay1), text_of(second, lay2)
+    rp = {'kind': 'pbn-reuse', 'first': _ser(first), 'lay1': lay1, 'second': _ser(second), 'lay2': lay2}
+    c.inc('evals')
+    c.inc('pbn_files', 2)
+    c.inc('parser_reuse_histories')
+    p = PbnParser()
+    try:
+        got1 = p.parse_board_settings(io.StringIO(t1, newline=''))
+        got2 = p.parse_board_settings(io.StringIO(t2, newline=''))
+    except Exception as e:  # noqa
+        c.violate(f'pbn:reuse-raise:{type(e).__name__}', f'one parser reading two files in a row raised {type(e).__name__}: {e}', rp)
+        return
+    for which, got, boards in (('first', got1, first), ('second', got2, second)):
+        ok = len(got) == len(boards) and all(not same_board(g, b, False) for g, b in zip(got, boards))
+        if not ok:
+            c.violate(f'pbn:reuse:{which}-file:{"no-blank-at-end" if not lay1.get("after") else "blank-at-end"}',
+                      f'one PbnParser object reading two files in a row: the {which} file (boards {[b["id"] for b in boards]}) was read as {[g.board_id for g in got]} '
+                      f'(first file layout {lay1})', rp)
+    c.see('cls', ('reuse', len(first), len(second), lay1.get('after', 0), lay1.get('final_eol', True)))
+
+
 def layout_class(lay: dict, boards) -> str:
     """Coarse class of a layout for violation keys: which blank-line features it uses."""
     f = []
@@ -164,6 +191,9 @@ def unit(args):
     if kind == 'json':
         for boards, mode, tag in payload:
             json_case(boards, mode, c, tag)
+    elif kind == 'reuse':
+        for a, l1, b, l2 in payload:
+            reuse_case(a, l1, b, l2, c)
     else:
         for boards, lay, tag in payload:
             pbn_case(boards, lay, c, tag)
@@ -183,6 +213,12 @@ def cases(tier: str, seed: int):
         J.append(([mk_board(0, seed, dealer=d, vul=v)], 'with', 'dealer-vul'))
     for x in ids(tier):
         J.append(([mk_board(0, seed + 2, bid=x, dda=True), mk_board(1, seed + 2, bid=x + x)], 'manual', 'id'))
+    # boards that share an id are still separate boards
+    dup = [mk_board(0, seed + 9, bid='7'), mk_board(1, seed + 9, bid='8'), mk_board(2, seed + 9, bid='7', dda=True)]
+    J.append((dup, 'with', 'repeated-id'))
+    J.append((dup[::2], 'manual', 'repeated-id'))
+    P.append((dup, dict(header='export'), 'repeated-id'))
+    P.append((dup[::2], dict(eol='\r\n'), 'repeated-id'))
     # PBN
     B = [mk_board(i, seed + 3) for i in range(3)]
     # (1) full product over the small layout menus for 1 and 2 boards (and 0 and 3 boards on a sub-product)
@@ -222,20 +258,31 @@ def cases(tier: str, seed: int):
     return J, P
 
 
+def reuse_cases(seed: int):
+    A = [mk_board(i, seed + 7, bid=f'A{i}') for i in range(2)]
+    Bb = [mk_board(i, seed + 8, bid=f'B{i}') for i in range(2)]
+    out = []
+    for n1, n2 in itertools.product((0, 1, 2), (1, 2)):
+        for after, final, eol, header in itertools.product((0, 1, 2), (True, False), ('\n', '\r\n'), ('none', 'export')):
+            out.append((A[:n1], dict(after=after, final_eol=final, eol=eol, header=header), Bb[:n2], dict(eol=eol, header=header)))
+    return out
+
+
 def run(tier, seed, workers):
     J, P = cases(tier, seed)
     n = max(1, workers)
-    units = [('json', seed, J[i::n]) for i in range(n)] + [('pbn', seed, P[i::n]) for i in range(n)]
+    R = reuse_cases(seed)
+    units = [('json', seed, J[i::n]) for i in range(n)] + [('pbn', seed, P[i::n]) for i in range(n)] + [('reuse', seed, R[i::n]) for i in range(n)]
     tot = merge_all(pmap(unit, units, workers))
     ne = tot.get('evals')
     cov = {
         'states': ne, 'transitions': ne, 'traces_validated_against_impl': ne, 'evaluations': ne,
-        'distinct_nontrivial': tot.distinct('cls'), 'json_files': tot.get('json_files'), 'pbn_files': tot.get('pbn_files'),
+        'distinct_nontrivial': tot.distinct('cls'), 'json_files': tot.get('json_files'), 'pbn_files': tot.get('pbn_files'), 'parser_reuse_histories': tot.get('parser_reuse_histories'),
         'rule': 'JSON: JsonBoardSettingWriter sequences of 0..3 boards (manual/with), every dda pattern, dealers x vulnerabilities, ids = every string of length <= 2 over '
                 f'{ALPHABET!r} + inner/edge double blanks.  PBN (rendered by mc/ref/pbn.py, fed with line ends preserved): full product header(4) x LF/CRLF x blank kind(3) x '
                 'blank lines before(0..3) x between(1..3) x after(0..3) x final line end(2) for 1 and 2 boards, sub-product for 0 and 3 boards, header followed by blank lines; '
                 'the 4 required tags in all 24 orders x deal from each first seat; extra tags before/between/after, OptimumResultTable with rows, repeated tags (first wins); '
-                '7 vulnerability spellings x 4 dealers; all ids.  Oracle: list of BoardSetting equal to the boards rendered, in order.',
+                '7 vulnerability spellings x 4 dealers; all ids; histories in which ONE parser object reads two files in a row (first file with 0..2 boards, 0..2 blank lines at its end, with/without a final line end).  Oracle: list of BoardSetting equal to the boards rendered, in order.',
         'samples': [{'pbn': '% PBN 2.1\\r\\n\\r\\n\\r\\n[Deal "E:..."]\\r\\n[Vulnerable "Love"]\\r\\n[Dealer "S"]\\r\\n[Board "a  b"]\\r\\n\\t\\r\\n\\t\\r\\n[Board ...'},
                     {'json': 'open, write(id=": ", dda), write(id=": : "), close'}],
         'exhaustive': True,
@@ -246,6 +293,9 @@ def run(tier, seed, workers):
 
 def replay(d):
     c = Counter()
+    if d['kind'] == 'pbn-reuse':
+        reuse_case(_deser(d['first']), d['lay1'], _deser(d['second']), d['lay2'], c)
+        return bool(c.violations), '\n'.join(f'{v.key}: {v.message}' for v in c.violations) or 'read back correctly'
     boards = _deser(d['boards'])
     if d['kind'] == 'json':
         json_case(boards, d['mode'], c, 'replay')
